@@ -323,8 +323,10 @@ def replay (conns : Array CConn) (pkts : List FPkt) : Replay := Id.run do
         let acc := acceptReassembled true true     -- a fragment, and it completed the datagram
         -- the datagram is reported whatever it carries; only a TCP segment (protocol 6, complete header) goes on
         -- to the assembler
-        r := { r with done := r.done.push ⟨src, dst, id, proto, payload, 20 + body.length, acc && served⟩ }
-        match (if proto == 6 then tcpOf conns src dst payload else none) with
+        let seg := if proto == 6 then tcpOf conns src dst payload else none
+        let (recorded, handedOn) := onReassembled seg.isSome (proto == 6)
+        r := { r with done := r.done.push ⟨src, dst, id, proto, payload, 20 + body.length, acc && served && recorded⟩ }
+        match (if handedOn then seg else none) with
         | none => pure ()
         | some ev =>
           r := { r with evsRef := r.evsRef.push ev }
